@@ -11,7 +11,7 @@ regexes and duplicate placeholders is not decided.
 import ast
 import re as _re
 from ..core import AnalysisError, norm, dotted, calls_in, walk_no_nested, parent, enclosing_stmt, const_value
-from ..flow import Flow, conjuncts
+from ..flow import Flow, guard_chain, conjuncts
 from ..order import Interp
 from ..algebra_lin import linear_form
 
@@ -141,36 +141,40 @@ def rule_table(ctx):
 
 def rule_year2(ctx):
     ctx.rule("C02.year2", "T4 (exhaustive)", "reader(writer(y)) = y for all y in 1965..2064")
+    from ..flow import guard_chain
     f = ctx.func(FILESET, "FileSet._standardise_datetime_args")
+    flow = Flow(f)
     mod = ctx.mod(FILESET)
     thr = const_value(mod.table("year2_threshold", scope="FileSet"))
-    blk = None
-    for st in walk_no_nested(f.node):
-        if isinstance(st, ast.If) and isinstance(st.test, ast.Compare) and "year2_threshold" in norm(st.test) and st.orelse:
-            blk = st
-    if blk is None:
-        raise AnalysisError("_standardise_datetime_args: threshold branch not found")
-    yv = [n.id for n in ast.walk(blk.test) if isinstance(n, ast.Name) and n.id not in ("self", "FileSet")]
-    if len(yv) != 1:
-        raise AnalysisError("_standardise_datetime_args: threshold test has no single variable")
-    yv = yv[0]
-
-    def arm(stmts, y2):
-        for s in stmts:
-            if isinstance(s, ast.Assign) and norm(s.targets[0]).replace('"', "'") == "%s['year']" % f.params[1]:
-                return Interp({yv: y2}).ev(s.value)
-        raise AnalysisError("_standardise_datetime_args: no year assignment in a threshold arm")
+    a = f.params[1]
+    # the local holding the two-digit year: name = args.pop('year2', None)
+    yv = None
+    for st in flow.stmts:
+        if isinstance(st, ast.Assign) and isinstance(st.targets[0], ast.Name) and "year2" in norm(st.value) and (".pop(" in norm(st.value) or ".get(" in norm(st.value)):
+            yv = st.targets[0].id
+    if yv is None:
+        raise AnalysisError("_standardise_datetime_args: the two-digit year is not read into a local")
+    stores = [st for st in flow.stmts if isinstance(st, ast.Assign) and norm(st.targets[0]).replace('"', "'") == "%s['year']" % a]
+    if not stores:
+        raise AnalysisError("_standardise_datetime_args: no store into args['year']")
     bad = None
     for y in range(1965, 2065):
         y2 = y % 100          # writer: str(year)[-2:]
-        t = Interp({yv: y2, "self.year2_threshold": thr, "FileSet.year2_threshold": thr}).ev(blk.test)
-        got = arm(blk.body if t else blk.orelse, y2)
-        if got != y:
+        env = {yv: y2, "self.year2_threshold": thr, "FileSet.year2_threshold": thr}
+        got = []
+        for st in stores:
+            try:
+                active = all(bool(Interp(dict(env, **{"%s is not None" % yv: True, "%s is None" % yv: False})).ev(t)) == pol for t, pol in guard_chain(st))
+                if active:
+                    got.append(Interp(env).ev(flow.resolve(st.value, at=st, depth=3, stop=(yv,))))
+            except AnalysisError as e:
+                raise AnalysisError("_standardise_datetime_args: year2 branch outside the order model: %s" % e)
+        if got != [y]:
             bad = {"year": y, "written": "%02d" % y2, "parsed": got}
             break
     ctx.models.append({"rule": "C02.year2", "cases": 100, "exhaustive": True, "domain": "1965..2064"})
-    ctx.ob("FileSet._standardise_datetime_args.year2", bad is None, "if %s: %s else: %s (threshold %s)" % (norm(blk.test), norm(blk.body[0]), norm(blk.orelse[0]), thr),
-           "two-digit years round-trip over 1965..2064 (65..99 -> 19xx, 00..64 -> 20xx)", node=blk, func=f, witness=bad)
+    ctx.ob("FileSet._standardise_datetime_args.year2", bad is None, "stores %s (threshold %s)" % ([norm(s)[:60] for s in stores], thr),
+           "two-digit years round-trip over 1965..2064 (65..99 -> 19xx, 00..64 -> 20xx)", node=stores[0], func=f, witness=bad)
 
 
 def rule_doy_subsec(ctx):
@@ -259,10 +263,31 @@ def rule_endfill(ctx):
              "exactly when they would precede the start")
     f = ctx.func(FILESET, "FileSet._retrieve_time_coverage")
     flow = Flow(f)
-    mg = [st for st in flow.stmts if isinstance(st, ast.Assign) and isinstance(st.value, ast.Dict) and all(k is None for k in st.value.keys) and len(st.value.values) == 2]
-    ok = bool(mg) and [norm(v) for v in mg[0].value.values] == ["start_args", "end_args"] and norm(mg[0].targets[0]) == "end_args"
-    ctx.ob("FileSet._retrieve_time_coverage.merge", ok, "%s" % (norm(mg[0]) if mg else None), "end_args = {**start_args, **end_args}: missing end fields come from the start, given ones win",
-           node=mg[0] if mg else f.node, func=f)
+    # the end time is built as datetime(**X); X must be the start fields overlaid by the end fields
+    from ..canon import canon
+    ends = [st for st in flow.stmts if isinstance(st, ast.Assign) and norm(st.targets[0]) == "end_date" and isinstance(st.value, ast.Call)
+            and dotted(st.value.func) == "datetime"]
+    if not ends:
+        raise AnalysisError("_retrieve_time_coverage: `end_date = datetime(**...)` not found")
+    e0 = ends[0]
+    kw = [k.value for k in e0.value.keywords if k.arg is None]
+    if len(kw) != 1 or e0.value.args:
+        raise AnalysisError("_retrieve_time_coverage: end_date is not built from one ** mapping")
+    full = canon(flow.resolve(kw[0], at=e0, depth=5))
+    roles = []
+    if isinstance(full, ast.Dict) and all(k is None for k in full.keys):
+        for v in full.values:
+            if isinstance(v, ast.Subscript) and isinstance(v.slice, ast.Constant) and isinstance(v.value, ast.Call) and dotted(v.value.func).endswith("_to_datetime_args"):
+                roles.append({0: "start", 1: "end"}.get(v.slice.value, "?"))
+            else:
+                raise AnalysisError("_retrieve_time_coverage: operand %s of the end-time mapping is not a result of _to_datetime_args" % norm(v))
+    elif isinstance(full, ast.Subscript) and isinstance(full.value, ast.Call) and dotted(full.value.func).endswith("_to_datetime_args"):
+        roles = [{0: "start", 1: "end"}.get(getattr(full.slice, "value", None), "?")]
+    else:
+        raise AnalysisError("_retrieve_time_coverage: end-time mapping %s is not an overlay of the parsed fields" % norm(full)[:80])
+    ok = roles == ["start", "end"]
+    ctx.ob("FileSet._retrieve_time_coverage.merge", ok, "end_date = datetime(**%s): overlay order %s" % (norm(kw[0]), roles),
+           "{**start_args, **end_args}: missing end fields come from the start, given ones win", node=e0, func=f)
     ro = [st for st in flow.stmts if isinstance(st, ast.If) and any(isinstance(s, ast.AugAssign) for s in st.body)]
     okr = False
     fact = None
@@ -354,13 +379,50 @@ def rule_merge(ctx):
     oko = bool(fn) and bool(hd) and f.body.index(fn[0]) < f.body.index(hd[0])
     ctx.ob("FileSet.get_info.order", oko, "file-name block before handler block: %s" % oko, "handler information is applied last and wins", node=hd[0] if hd else f.node, func=f)
     u = ctx.func(HCOMMON, "FileInfo.update")
-    ifs = [st for st in u.body if isinstance(st, ast.If)]
-    oku = len(ifs) == 2
-    for k, st in enumerate(ifs[:2]):
-        oku = oku and norm(st.test) == "other_info.times[%d] is not None or not ignore_none_time" % k and norm(st.body[0]) == "self.times[%d] = other_info.times[%d]" % (k, k)
+    other = u.params[1]
+    stores = [st for st in walk_no_nested(u.node) if isinstance(st, ast.Assign) and norm(st.targets[0]).startswith("self.times")]
+    stores.sort(key=lambda n: (n.lineno, n.col_offset))
+    bad = []
+    seen = {}
+    for st in stores:
+        t = st.targets[0]
+        if not (isinstance(t, ast.Subscript) and isinstance(t.slice, ast.Constant) and t.slice.value in (0, 1)):
+            raise AnalysisError("FileInfo.update: store %s is not one of self.times[0] / self.times[1]" % norm(st))
+        j = t.slice.value
+        src = "%s.times[%d]" % (other, j)
+        if norm(st.value) != src:
+            bad.append("%s (wanted %s)" % (norm(st), src))
+            continue
+        guards = guard_chain(st)
+        if not guards:
+            bad.append("%s is unconditional" % norm(st))
+            continue
+        table = {}
+        for isnone in (True, False):
+            for ign in (True, False):
+                val = None if isnone else 7
+                env = {"ignore_none_time": ign}
+                for k in (0, 1):
+                    env["%s.times[%d]" % (other, k)] = val if k == j else 7      # the OTHER time is present: a test on it cannot protect this one
+                try:
+                    table[(isnone, ign)] = all(bool(Interp(env).ev(g)) == pol for g, pol in guards)
+                except AnalysisError as e:
+                    raise AnalysisError("FileInfo.update: guard of %s outside the model: %s" % (norm(st), e))
+        want = {(True, True): False, (True, False): True, (False, True): True, (False, False): True}
+        if table != want:
+            bad.append("%s under %s: overwrites when %s" % (norm(st), " and ".join(norm(g) for g, _ in guards),
+                                                           [("None" if k[0] else "time", "ignore" if k[1] else "keep") for k, v in table.items() if v != want[k]]))
+        seen[j] = True
+    if not bad and set(seen) != {0, 1}:
+        raise AnalysisError("FileInfo.update: the stores into self.times[0] and self.times[1] were not both found (%s)" % [norm(s) for s in stores])
     dfl = u.defaults().get("ignore_none_time")
-    oku = oku and dfl is not None and norm(dfl) == "True" and any(norm(s) == "self.attr.update(**other_info.attr)" for s in u.body)
-    ctx.ob("FileInfo.update", oku, "%s" % [norm(s.test) for s in ifs], "a time is overwritten only by a non-None time (default); attributes are merged", node=u.node, func=u)
+    attr = any(norm(s).replace(" ", "") in ("self.attr.update(**%s.attr)" % other, "self.attr.update(%s.attr)" % other) for s in u.body)
+    if dfl is None or norm(dfl) != "True":
+        bad.append("default of ignore_none_time is %s" % (norm(dfl) if dfl is not None else None))
+    if not attr:
+        raise AnalysisError("FileInfo.update: the attribute merge self.attr.update(**other.attr) was not found")
+    ctx.ob("FileInfo.update", not bad, "%s%s" % ([norm(s)[:50] for s in stores], ("  [%s]" % "; ".join(bad)) if bad else ""),
+           "a time is overwritten only by a non-None time (default); attributes are merged", node=u.node, func=u)
 
 
 def rule_reject(ctx):
